@@ -38,12 +38,15 @@ pub struct StepRecord {
     pub enabled: Vec<String>,
     pub locks:   Vec<String>,
     pub finished: bool,
+    /// the announced operation was not enabled when it was announced: the thread really had to wait
+    pub waited: bool,
 }
 
 struct ThreadInfo {
     name:     String,
     run:      u64,
     pending:  Option<(Op, &'static Location<'static>)>,
+    waited:   bool,
     finished: bool,
     panicked: bool,
     token:    bool,
@@ -72,7 +75,7 @@ struct Inner {
     trace:        Vec<StepRecord>,
     cur_obs:      Vec<Obs>,
     cur_locks:    Vec<String>,
-    cur_step:     Option<(Tid, Op, &'static Location<'static>, Vec<String>)>,
+    cur_step:     Option<(Tid, Op, &'static Location<'static>, Vec<String>, bool)>,
     steps:        usize,
     max_steps:    usize,
     quiescent:    bool,
@@ -148,7 +151,7 @@ impl Inner {
 
     /// Closes the record of the step that the current thread has just finished
     fn end_step(&mut self, finished: bool) {
-        if let Some((tid, op, loc, enabled)) = self.cur_step.take() {
+        if let Some((tid, op, loc, enabled, waited)) = self.cur_step.take() {
             if self.recording {
                 let (obj, class) = match op {
                     Op::Lock(m)         => self.name_of_mutex(m),
@@ -158,7 +161,7 @@ impl Inner {
                 let snap = self.snapshot.as_ref().map(|s| s()).unwrap_or_default();
                 let record = StepRecord {
                     thread: self.threads[tid].name.clone(), op: op_name(&op), class, obj, loc: short_loc(loc),
-                    obs: std::mem::take(&mut self.cur_obs), snap, enabled, locks: std::mem::take(&mut self.cur_locks), finished
+                    obs: std::mem::take(&mut self.cur_obs), snap, enabled, locks: std::mem::take(&mut self.cur_locks), finished, waited
                 };
                 self.trace.push(record);
             } else {
@@ -200,7 +203,8 @@ impl Inner {
             _                   => { }
         }
         let enabled_names = enabled.iter().map(|t| self.threads[*t].name.clone()).collect();
-        self.cur_step = Some((chosen, op, loc, enabled_names));
+        let waited = self.threads[chosen].waited;
+        self.cur_step = Some((chosen, op, loc, enabled_names, waited));
     }
 }
 
@@ -265,7 +269,7 @@ impl Sched {
         let wake = Arc::new(Condvar::new());
         static START: &'static str = "start";
         inner.threads.push(ThreadInfo {
-            name, run, pending: if at_start { Some((Op::Yield(START), Location::caller())) } else { None }, finished: false, panicked: false, token: false, notified: false, wake: Arc::clone(&wake)
+            name, run, pending: if at_start { Some((Op::Yield(START), Location::caller())) } else { None }, finished: false, panicked: false, token: false, notified: false, waited: false, wake: Arc::clone(&wake)
         });
 
         std::thread::Builder::new().name(format!("dverif-{}", id)).spawn(move || {
@@ -436,6 +440,8 @@ impl Sched {
         let mut inner = self.inner.lock().unwrap();
         let spawning = inner.spawner.is_some();
         if !spawning { inner.end_step(false); }
+        let enabled_now = { let t = &inner.threads[me]; inner.enabled_op(t, &op) };
+        inner.threads[me].waited = !enabled_now;
         inner.threads[me].pending = Some((op, loc));
         let _inner = self.switch(inner, Some(me));
     }
